@@ -28,6 +28,7 @@ def evaluate(directory, tier="quick", props=None, baseline=True):
     meta_path = os.path.join(directory, "meta.json")
     meta = json.load(open(meta_path)) if os.path.exists(meta_path) else {}
     props = props or [meta.get("property")]
+    directory = os.path.abspath(directory)
     demo = os.path.join(directory, "demo.py")
     out = {"dir": directory}
     env = dict(os.environ, PYTHONPATH="/repo", PYTHONDONTWRITEBYTECODE="1",
@@ -89,6 +90,26 @@ def main():
         print(json.dumps(res, indent=1), flush=True)
         caught = any(v.get("exit") == 1 for k, v in res.items()
                      if k.startswith("check_"))
+        if "--record" in sys.argv:
+            meta_path = os.path.join(directory, "meta.json")
+            meta = json.load(open(meta_path)) if os.path.exists(meta_path) else {}
+            confirmed = res.get("demo_unchanged_exit") == 0\
+                and res.get("demo_changed_exit") not in (0, None)\
+                and res.get("repo_tests_pass") is True
+            meta["confirmed"] = {
+                "demo_exit_on_unchanged_tree": res.get("demo_unchanged_exit"),
+                "demo_exit_with_change": res.get("demo_changed_exit"),
+                "repo_suite_passes_with_change": res.get("repo_tests_pass"),
+                "all_confirmed": confirmed,
+                "how": "tools/seeded.py: scratch copy of /repo + patch -p1, "
+                       "demo.py on both trees, tools/baseline.py on the copy"}
+            meta.setdefault("checks", {})
+            for k, v in res.items():
+                if k.startswith("check_"):
+                    meta["checks"][k[6:] + ":" + tier] = {
+                        "exit": v["exit"], "caught": v["exit"] == 1,
+                        "first_lines": v["lines"][:2]}
+            json.dump(meta, open(meta_path, "w"), indent=1)
         print("==> {} {}".format(directory, "CAUGHT" if caught else "MISSED"),
               flush=True)
         status |= 0 if caught else 1
